@@ -655,7 +655,13 @@ impl Exec {
                     }
                 }
                 self.tick();
-                self.node.deliver(&v);
+                // assume-valid concerns blocks of the trusted (valid) chain only
+                if self.delivered.len() <= self.sc.assume_valid_first && self.sc.assume_valid_first > 0 && self.w.blocks[*b].chain_valid {
+                    self.res.faults.inc("delivered_with_scripts_disabled");
+                    self.node.deliver_with(&v, Some(ckb_verification_traits::Switch::DISABLE_SCRIPT));
+                } else {
+                    self.node.deliver(&v);
+                }
                 self.ev(&format!("deliver {} n={} {}", b, self.w.blocks[*b].number, hex(&v.hash())));
                 self.observe("deliver");
             }
